@@ -27,9 +27,18 @@ class Controlled:
     def _rfg(self, graph, fn, *, worker_count=None, max_errors=0, scheduler=None):
         import core
         core.alive()
+        if getattr(self, "abandoned", False):
+            return self._orig[0](graph, fn, worker_count=worker_count, max_errors=max_errors, scheduler=scheduler)
         r = detsched.Run(self.rfg, self.sites, self.chooser, extra_files=self.extra_files)
+        try:
+            outcome = core.call_watched(lambda: r.execute(graph, fn, worker_count, max_errors, scheduler), timeout=40)
+        except core.Hang:
+            # the engine blocks in something the scheduler does not replace: from now on run the library as it is (real threads)
+            core.HANGS[0] -= 1
+            self.abandoned = True
+            detsched.force_restore(self.rfg)
+            return self._orig[0](graph, fn, worker_count=worker_count, max_errors=max_errors, scheduler=scheduler)
         self.runs.append(r)
-        outcome = r.execute(graph, fn, worker_count, max_errors, scheduler)
         if outcome[0] == "raised":
             raise outcome[1]
         if outcome[0] != "returned":
